@@ -22,12 +22,12 @@ FORMATS = ["dkvp", "csv", "csv2tsv"]
 
 def render_input(fmt, spellings):
     if fmt == "dkvp":
-        return "".join("k=r%d\tx=%s\ty=%d\n" % (i, s, i % 4 + 1) for i, s in enumerate(spellings, start=1))
+        return "".join("k=r%d\tx=%s\ty=%d\te=\n" % (i, s, i % 4 + 1) for i, s in enumerate(spellings, start=1))
     buf = io.StringIO()
     w = csv.writer(buf, lineterminator="\n")
-    w.writerow(["k", "x", "y"])
+    w.writerow(["k", "x", "y", "e"])          # e: a field that is empty in every record (the catalogue assigns INTO it)
     for i, s in enumerate(spellings, start=1):
-        w.writerow(["r%d" % i, s, i % 4 + 1])
+        w.writerow(["r%d" % i, s, i % 4 + 1, ""])
     return buf.getvalue()
 
 
@@ -65,7 +65,7 @@ def parse_output(fmt, text):
     return recs
 
 
-ORIG = ["k", "x", "y"]
+ORIG = ["k", "x", "y", "e"]
 
 
 def observe(fmt, spellings, res):
